@@ -18,7 +18,7 @@ RULE = ("Single-section tables from a pagination-oriented generator: 0-60 rows w
         "default(auto) / multi-row / none, footnote and source absent / table / paragraph under any placement, "
         "plain / page_by (1-3 levels, new_page on/off) / subline_by with group runs sized relative to the page "
         "capacity (straddling and not straddling breaks), page_by values, subline_by values and column header labels that wrap to 2-3 "
-        "lines across the table / the text area / in their cell; plus an exhaustive sweep header(4) x footnote(3) x "
+        "lines across the table / the text area / in their cell (every column of 1-4 column tables), group_by listings whose labels take 1-3 lines; plus an exhaustive sweep header(4) x footnote(3) x "
         "source(3) x strategy(3) x nrow 3..12 on 1-line rows. Oracle: per parsed page, sum of independent "
         "lower-bound line weights (PIL on the bundled font files, parsed font/size/\\cellx) of header rows, heading "
         "rows, subline heading, data rows and table footnote/source rows <= nrow, except on a page with exactly "
@@ -37,6 +37,9 @@ def strategy(tier):
         pgen.pag_recipe(fonts=False, max_rows=40, nrow_range=(2, 14), levels_max=2, nulls=True, widths=True, tall_headings=True),
         pgen.pag_recipe(fonts=False, max_rows=40, nrow_range=(6, 16), levels_max=2, strategies=("page_by", "page_by_new", "subline"), pageby_rows=("column", "first_row"),
                         tall_headings=True, fn_src=False, headers=("explicit", "none")),
+        # group_by listings: labels of 1-3 lines, blanked on repeats and restored on the first row of every page
+        pgen.pag_recipe(fonts=False, max_rows=40, nrow_range=(4, 14), strategies=("plain",), headers=("explicit", "none"), group_by=True, max_height=2,
+                        fn_src=False),
         # column header labels that wrap to 2-3 lines in their own cell
         pgen.pag_recipe(fonts=False, max_rows=40, nrow_range=(5, 16), levels_max=1, headers=("explicit", "multi"), tall_headers=True, max_height=2),
         pgen.pag_recipe(fonts=False, max_rows=30, nrow_range=(2, 12), levels_max=1, headers=("explicit", "multi", "none")),
@@ -63,6 +66,12 @@ def enumerate_cases(tier):
                               footnote=fn, source=src, nrow=nrow)
         rec["strategy"] = strat
         yield rec
+    # a header label of 2 / 3 lines in each column of a 1-4 column table, pages filled exactly
+    for ndata, k, nrow in itertools.product((1, 2, 3, 4), (2, 3), (6, 9)):
+        for col in range(ndata):
+            rec = pgen.make_table([1] * 20, None, ndata=ndata, header="explicit", nrow=nrow, tall_header=k, tall_header_col=col)
+            rec["strategy"] = "plain"
+            yield rec
 
 
 def _open():
@@ -161,6 +170,7 @@ def check(case) -> Result:
     res.labels = [pages_label(len(pages)), "strategy=" + case.get("strategy", "?"), "fonts" if "text_font" in body else "default_font",
                   "header=" + (case["sections"][0]["headers"] if isinstance(case["sections"][0]["headers"], str) else f"explicit{len(case['sections'][0]['headers'])}"),
                   "near_full" if near_full else "slack", f"levels={len(body.get('page_by', []))}",
-                  "null_group" if any(None in k for k in pb_keys) else "no_null_group", "rel_widths" if "col_rel_width" in body else "equal_widths"]
+                  "null_group" if any(None in k for k in pb_keys) else "no_null_group", "rel_widths" if "col_rel_width" in body else "equal_widths",
+                  "group_by" if body.get("group_by") else "no_group_by"]
     res.nontrivial = len(pages) >= 2 and near_full
     return res
